@@ -197,5 +197,8 @@ def check(run):
                 "roots 1..3(4) x bond limits {2, 3, sufficient}; omega targeting; trees in C08_tree; distinct = (model,size,sector,method,roots,limit,clause)")
     run.sample({"model": "spinqn", "nsites": 6, "sector": 3, "method": "1site", "nroots": 2, "M": 3,
                 "contract": "sorted reported energies >= lowest exact sector eigenvalues; returned states normalised, in sector, QN-valid"})
-    run.explanation = "bounded only: variational theorem + exact diagonalisation as oracle; no proof claimed (see DESIGN §11)"
+    run.explanation = ("Decided exactly (Engine S, all tensor values per enumerated shape): the local matrix / matrix-free product is the projected Hamiltonian, the sweeps of the "
+                       "chain and tree optimisers pose exactly these eigenproblems in the state the previous update produced and hand back the state of the requested site "
+                       "(call by contract at the local eigensolver). Bounded: the eigensolvers themselves, orthonormal frames, the variational theorem against exact "
+                       "diagonalisation as oracle; no proof is claimed for convergence (DESIGN §11).")
     run.trusted += ["numpy.linalg.eigvalsh of the sector-projected dense Hamiltonian", "cited: variational (min-max) theorem"]
